@@ -9,6 +9,7 @@ require (
 	github.com/chrislusf/raft v1.0.7
 	github.com/chrislusf/seaweedfs v0.0.0
 	github.com/golang/protobuf v1.4.3
+	github.com/seaweedfs/fuse v1.1.8
 	google.golang.org/grpc v1.29.1
 	pgregory.net/rapid v1.3.0
 )
